@@ -2,7 +2,8 @@
 """C19 - cell labels and row/column indices correspond one-to-one (hotxlfp/helper/cell.py)
 
 case kinds: col, idx, row, rowlabel, label (with `pre`: after formulas on the shared parser), formula (oracle only; with key
-`wrap` the formula is the one label s put into the pattern wrap - white space around it or parentheses)"""
+`wrap` the formula is the one label s put into the pattern wrap - white space around it or parentheses; with key `cellonly`
+the formula, a range, is evaluated on a second parser that has a cell listener only: no cell event may be raised)"""
 import itertools
 import string
 
@@ -30,7 +31,10 @@ RULE = ('col: all column labels of length<=2 in upper case + the 26 lower-case l
         'ASCII letters (30 % also as a range) - no event may be raised; 150*scale ASCII one-label formulas and 250*scale sums of '
         '2..3 references to one address in different $ patterns and cases - exactly one cell event per reference with the '
         'upper-cased label, its recomposition and its $ flags (the cell listener reads the parts through the tuple protocol of '
-        'Cell, row, col = cell, and checks that they are the very objects cell.row / cell.col / cell[0] / cell[1] give); 200*scale '
+        'Cell, row, col = cell, and checks that they are the very objects cell.row / cell.col / cell[0] / cell[1] give, and that each '
+        'of the two parts, taken apart as a tuple, is exactly the triple (index, label, is_absolute) of its attributes - helper/cell.py '
+        'ParsedLabel; a part that is not reports PART<>(index, label, is_absolute) in place of the recomposition, which no expected event '
+        'equals); 200*scale '
         'formulas with key wrap + 6 fixed: ONE label (1..3 ASCII letters of either case, row 1..4999, the four $ patterns) with '
         'white space around it or in redundant parentheses, the pattern seeded from a list of 10 (label LF, listed twice, label CR LF, blank label, '
         'label blank, LF label, label LF LF, tab label tab, (label), ( label )); fixed: A1 and $b$2 each followed by LF, by CR LF and in '
@@ -43,10 +47,13 @@ RULE = ('col: all column labels of length<=2 in upper case + the 26 lower-case l
         '250*scale (thorough x5) range formulas SUM(a:b) / a:b / sum(a:b) over labels of 1..4 letters from ABCDXYZabz, rows '
         'below 30 / 1048577, four $ patterns (15 %: a:a): exactly one range event and no cell event, the two corners read by the '
         'range listener through the tuple protocol (row, col = corner, the same objects as corner.row / corner.col) and reported '
-        'as label | recomposed parts | row index | column index | row $ | column $; expected: first corner = smaller row part and '
+        'as label | recomposed parts | row index | column index | row $ | column $ (the part triples are checked by the cell listener only); expected: first corner = smaller row part and '
         'smaller column part, second corner = the larger ones, each part with the $ marker it was written with (a formula is '
         'judged as a range when, inside an optional SUM( ), it is two label-shaped strings around one colon; as a sum when every '
-        '+-separated part is label-shaped; other ASCII formulas are not judged). All kinds but formula are compared with the model (label: also on '
+        '+-separated part is label-shaped; other ASCII formulas are not judged); 6 fixed range formulas with key cellonly (SUM(B2:C3), SUM(y1:ab1), SUM(A$9:A$11), '
+        'SUM($B$2:C3), B2:C3, SUM(A1:A1)) are evaluated on a SECOND parser of the run that carries the same cell listener and no range '
+        'listener (a host that listens to cells only): a range is no cell, the list of observed events must be empty - no cell '
+        'event for a corner or for any cell of the block; what the formula evaluates to is ignored. All kinds but formula are compared with the model (label: also on '
         'non-ASCII text). Non-trivial = the implementation returns something other than -1 / empty / []; formula cases always '
         'count. When a proof or the correspondence broke: indices within 30 of a disagreeing one, both cases of a disagreeing '
         'column label, and the whole generator at scale 20.')
@@ -54,7 +61,9 @@ TRUSTED = ['CPython str.upper/str.find/int()/str() on ASCII (modelled by hand in
            'the regular expression engine `re` for LABEL_EXTRACT_REGEXP (matcher written by hand for the generated pattern; '
            'Props/C19.regexp_is_the_modelled_one pins the pattern text)',
            'pre / formula cases: lexer, grammar and evaluator of hotxlfp.Parser are the route to the label functions and are not '
-           'judged themselves (the results of the formulas are ignored; one parser is shared by the whole run)',
+           'judged themselves (the results of the formulas are ignored; one parser is shared by the whole run; the cellonly cases '
+           'use a second one, built with it, with the same on_cell listener and nothing else registered - the two share the event '
+           'list, which is emptied before every formula)',
            'the function-name labels are drawn from hotxlfp.formulas.dispatcher._registry_ of the live code (a fixed list of 19 '
            'names when the registry cannot be read)']
 ASSUMPTIONS = ['column_label_to_index is compared on ASCII input only (str.upper of non-ASCII text is library behaviour)',
@@ -71,7 +80,11 @@ ASSUMPTIONS = ['column_label_to_index is compared on ASCII input only (str.upper
                'a formula a:b or SUM(a:b) over two labels raises exactly one callRangeValue event and no callCellValue event; the '
                'corners handed to the listener are Cells whose tuple protocol (row, col = cell) gives the parts their attributes '
                'give; the first corner carries the smaller row part and the smaller column part (on a tie the one written first), '
-               'the second the others, each part keeping its own $ marker']
+               'the second the others, each part keeping its own $ marker',
+               'the row and the column part of the Cell handed to a cell listener are triples (index, label, is_absolute): a host may '
+               'take one apart as a tuple and gets what the attributes of the same name give',
+               'a range is no cell: on a parser whose host listens to callCellValue only, a:b and SUM(a:b) raise no callCellValue '
+               'event (not for the corners, not for the cells in between, not for a one-cell range A1:A1)']
 EXHAUSTIVE = {'quick': False, 'thorough': True}
 
 UP = string.ascii_uppercase
